@@ -295,6 +295,64 @@ MUTANTS = [
          edits=[E("rustradio_macros/src/lib.rs", "otags.push(#path::stream::Tag::new(pos, tag.key(), tag.val().clone()));", "otags.push(#path::stream::Tag::new(0, tag.key(), tag.val().clone()));", count=2)]),
     dict(name="c12-tag-filter-ge", prop="C12", expect="C12.R2:<add::Add as block::Block>::work:select_eq",
          edits=[E("rustradio_macros/src/lib.rs", ".filter(|t| t.pos() == pos)", ".filter(|t| t.pos() >= pos)")]),
+    # ---------------- C13
+    dict(name="c13-crc-check-removed", prop="C13", expect="C13.R1:hdlc_deframer::HdlcDeframer::update_state:push",
+         edits=[E("src/hdlc_deframer.rs", """                        if crc != got_crc {
+                            self.crc_error += 1;
+                            debug!("want crc {:0>4x}, got {:0>4x}", crc, got_crc);
+                            return Ok(State::Synced((0, Vec::with_capacity(self.max_size))));
+                        }
+""", """                        if crc != got_crc {
+                            self.crc_error += 1;
+                            debug!("want crc {:0>4x}, got {:0>4x}", crc, got_crc);
+                        }
+""")]),
+    dict(name="c13-min-size-guard-removed", prop="C13", expect="C13.R1:hdlc_deframer::HdlcDeframer::update_state:push",
+         edits=[E("src/hdlc_deframer.rs", "                } else if bits.len() / 8 < self.min_size {", "                } else if false {")]),
+    dict(name="c13-mult8-guard-removed", prop="C13", expect="C13.R",
+         edits=[E("src/hdlc_deframer.rs", "                if bits.len() % 8 != 0 {", "                if bits.len() % 8 == 100 {")]),
+    dict(name="c13-too-long-not-abandoned", prop="C13", expect="C13.R2:",
+         edits=[E("src/hdlc_deframer.rs", """                if bits.len() > self.max_size * 8 {
+                    return Ok(State::Unsynced(0xff));
+                }
+""", "")]),
+    # ---------------- C14
+    dict(name="c14-parse-big-endian", prop="C14", expect="C14.R1:Sample for u32",
+         edits=[E("src/lib.rs", "u32::from_le_bytes", "u32::from_be_bytes")]),
+    dict(name="c14-au-header-consume-removed", prop="C14", expect="C14.R2:<au::AuDecode as block::Block>::work:->Data",
+         edits=[E("src/au.rs", "                i.consume(header_rest_len);\n", "")]),
+    dict(name="c14-au-decode-little-endian", prop="C14", expect="C14.R1:AU encoder/decoder",
+         edits=[E("src/au.rs", "(i16::from_be_bytes(bytes) as Float) / 32767.0", "(i16::from_le_bytes(bytes) as Float) / 32767.0")]),
+    # ---------------- C15
+    dict(name="c15-wpcr-min-samples-guard", prop="C15", expect="C15.D",
+         edits=[E("src/wpcr.rs", """        if samples.len() < 4 {
+            return None;
+        }
+""", "")]),
+    dict(name="c15-hdlc-short-fcs-guard-removed", prop="C15", expect="C15.D1:hdlc_deframer::HdlcDeframer::update_state|overflow:Sub",
+         edits=[E("src/hdlc_deframer.rs", """                        if bytes.len() < 2 {
+                            // Too short to even hold a checksum.
+                            return Ok(State::Synced((0, Vec::with_capacity(self.max_size))));
+                        }
+""", "")]),
+    dict(name="c15-au-offset-guard-removed", prop="C15", expect="C15.D1:<au::AuDecode as block::Block>::work|overflow:Sub",
+         edits=[E("src/au.rs", """                if data_offset < 24 {
+                    return Err(Error::msg(format!(
+                        ".au data offset {data_offset} is smaller than the header"
+                    )));
+                }
+""", "")]),
+    dict(name="c15-midpointer-empty-guard-removed", prop="C15", expect="C15.D3:<wpcr::Midpointer as block::Block>::work|index",
+         edits=[E("src/wpcr.rs", """            if a.is_empty() || b.is_empty() {
+                // Constant (or single sample) burst. There's no high and low
+                // level to find the midpoint of.
+                return Ok(BlockRet::Again);
+            }
+""", "")]),
+    dict(name="c15-new-unwrap-on-content", prop="C15", expect="C15.D2:<vec_to_stream::VecToStream as block::Block>::work|unwrap",
+         edits=[E("src/vec_to_stream.rs", "        debug_assert_eq!(v.len(), n);", "        debug_assert_eq!(v.len(), n);\n        let _first = v.first().unwrap();")]),
+    dict(name="c15-lfsr-assert-back", prop="C15", expect="C15.D2:descrambler::Lfsr::next|explicit",
+         edits=[E("src/descrambler.rs", "        let i = i & 1;\n        let ret", "        assert!(i <= 1);\n        let ret")]),
     # ---------------- C16
     dict(name="c16-plain-sub", prop="C16", expect="C16.R1:Repeat::again",
          edits=[E("src/lib.rs", "Repeater::Finite(n.saturating_sub(1));", "Repeater::Finite(n - 1);")]),
@@ -406,7 +464,7 @@ impl<T> Block for NoCopyFileSink<T>""")]),
          edits=[E("src/circular_buffer.rs", "        // Shrink file.\n", "        // SAFETY: mutant\n        let _extra = unsafe { libc::mmap(std::ptr::null_mut(), size, PROT_READ, MAP_SHARED, f.as_raw_fd(), 0) };\n        // Shrink file.\n")]),
 ]
 
-ALL_BUILT = ["C01", "C02", "C04", "C05", "C06", "C07", "C09", "C16", "C17", "C18"]
+ALL_BUILT = ["C03", "C08", "C12", "C13", "C14", "C15", "C19", "C01", "C02", "C04", "C05", "C06", "C07", "C09", "C16", "C17", "C18"]
 
 NEUTRAL = [
     dict(name="n-rename-local-produce", props=["C01", "C02"],
